@@ -561,6 +561,11 @@ def run(ctx, res):
               "" if not bad else "%d of %d result files: rows / menus / line annotations differ; first: %s" % (len(bad), len(cases), str({k: v for k, v in bad[0].items() if k != "errors"})[:1500]))
     for b in bad[:3]:
         res.violation("htmlreport output differs from the model (rows / menus / annotations)", dict(errors=b["errors"], detail=str({k: v for k, v in b.items() if k != "errors"})[:1500]), concrete=True, key=None)
+    # a broken implementation fails on most cases: keep the first few new failing inputs, every known-finding observation
+    _new = [v for v in res.violations if v.get("key") is None]
+    res.violations = [v for v in res.violations if v.get("key") is not None] + _new[:6]
+    if len(_new) > 6:
+        res.extra["further_failing_inputs_not_stored"] = len(_new) - 6
     missing = [c for c in REQUIRED_CLASSES if not res.dist.get("class:" + c)]
     res.oblig("coverage:input-classes", not missing, "correspondence",
               "" if not missing else "input classes never exercised in this run: %s" % missing)
